@@ -178,3 +178,8 @@ package xrespondent
 //@   before call:delete#1 assert arg0 == s.pipes && held(s.Mutex)
 //@   before call:close#1 assert arg0 == p.closeQ
 //@   ensures called("delete")
+
+// ---- round 10 (C10 "later calls fail with a closed error"): Send on a closed socket ----
+//@ func (*socket).SendMsg
+//@   ghost wasclosed = s.closed at call:Lock#1
+//@   ensures wasclosed ==> result == protocol.ErrClosed
